@@ -253,4 +253,13 @@ theorem isSubsetLoop_iff (l2 l seen : List α) :
         have hx := (existsIn_false_iff x l2).1 h2
         simp [hns, hx]
 
+theorem shiftDown_eq {β : Type} (s : List β) (n : Nat) : I.shiftDown s n = s.take n ++ s.drop (n + 1) := by
+  induction s generalizing n with
+  | nil => simp [I.shiftDown]
+  | cons x t ih =>
+    cases n with
+    | zero => simp [I.shiftDown]
+    | succ n => simp [I.shiftDown, ih]
+
+
 end FpgoVerif.C05
